@@ -517,6 +517,45 @@ def generate(repo):
         return None      # no normalisation found here: behaviour is checked by the harness ('P' / 'S' inputs)
     g.fact('stackPolarizationLowercased', SSRC, lowercased)
 
+    def angle_buffer():
+        """the Snell angles are complex in general (absorbing layers, evanescent gaps) and must not inherit the dtype of the
+        caller's stack (integer stacks would truncate them)"""
+        fn = stack_fn()
+        vals = [st.value for st in ast.walk(fn) if isinstance(st, ast.Assign) and ast.unparse(st.targets[0]) == 'angles']
+        if len(vals) != 1 or not isinstance(vals[0], ast.Call):
+            return None
+        f = ast.unparse(vals[0].func)
+        kws = {k.arg: ast.unparse(k.value) for k in vals[0].keywords}
+        if f in ('np.empty', 'np.zeros') and kws.get('dtype') in ('config.precision_complex', 'complex', 'np.complex128'):
+            return True
+        if f in ('np.empty_like', 'np.zeros_like') and kws.get('dtype') in ('config.precision_complex', 'complex', 'np.complex128'):
+            return True
+        if f in ('np.empty_like', 'np.zeros_like', 'np.empty', 'np.zeros') and \
+                kws.get('dtype') in (None, 'config.precision', 'float', 'np.float64', 'indices.dtype', 'thicknesses.dtype', 'stack.dtype'):
+            return False
+        return None
+    g.fact('stackAngleBufferIsComplex', SSRC, angle_buffer)
+
+    def no_inplace_on_inputs():
+        """no augmented assignment / element store on the arguments or on the views `indices`, `thicknesses` taken of the
+        caller's stack (np.asarray does not copy an ndarray)"""
+        fn = stack_fn()
+        for st in ast.walk(fn):
+            if isinstance(st, ast.AugAssign):
+                t = st.target
+                base = t.id if isinstance(t, ast.Name) else (t.value.id if isinstance(t, ast.Subscript) and isinstance(t.value, ast.Name) else None)
+                if base in ('indices', 'thicknesses', 'stack'):
+                    return False
+            if isinstance(st, ast.Assign):
+                for t in st.targets:
+                    if isinstance(t, ast.Subscript) and isinstance(t.value, ast.Name) and t.value.id in ('indices', 'thicknesses', 'stack'):
+                        return False
+            if isinstance(st, ast.Call) and isinstance(st.func, ast.Attribute) and isinstance(st.func.value, ast.Name) \
+                    and st.func.value.id in ('indices', 'thicknesses', 'stack') and st.func.attr in ('sort', 'fill', 'resize', 'itemset', 'put'):
+                return False
+        return True
+    g.fact('stackNoInPlaceOnCallerData', SSRC, no_inplace_on_inputs)
+
     return g.finish()
 
 
